@@ -389,9 +389,6 @@ pub fn check_c13(h: &History, report: &mut dyn FnMut(&str, usize, String)) {
                         report("current_position_is_not_the_replay", i, format!("last {} replay {}", o.last.raw.as_fen(), mfen::to_fen(&nx)));
                         return;
                     }
-                    if o.outcome.is_some() {
-                        report("push_set_an_outcome", i, format!("{:?}", o.outcome));
-                    }
                     mc.line.push(nx);
                     mc.moves.push(mm);
                     mc.fulls.push(o.last.clone());
